@@ -23,55 +23,94 @@ MANIFEST = {
             "<r_k,Bp_k> = <p_k,Bp_k>; all residuals mutually orthogonal, all directions B-conjugate; PRP = FR; the objective "
             "1/2(||A x - M y||^2 + lambda ||x - z||^2) never increases from pass to pass, hence never worse than the start for any "
             "num_iters / tol; zero residual <=> (A^H A + lambda) x = A^H y + lambda z; exact solution after dim passes (finite "
-            "termination); uniqueness of the solution. The theorems are about the same Lean definitions the driver executes over "
+            "termination); uniqueness of the solution. Phase 3 — 'to solver tolerance within num_iters' in exact arithmetic: "
+            "cg_exit_guarantee (with the code's own test mean(sqrt|<r,r>|) < tol the returned x is the iterate of the FIRST pass whose "
+            "true residual satisfies ||b - B x|| < 2*tol — the mean over the (re, im) pair halves the norm — or of pass num_iters; at "
+            "every earlier pass the residual was >= 2*tol), cg_reaches_tolerance (num_iters >= dim and tol > 0 => ||b - B x|| < 2*tol), "
+            "cg_no_tolerance (tol <= 0 runs all passes), stop_test_iff + stopQ_eq_stopTol (the square-root-free test the "
+            "executable model decides over its own exact rationals equals, under the cast Q -> R, the real-valued test of the "
+            "theorems: the driver's loop stops exactly when the theorems' loop does). Call histories: dc_history_independent — a block whose "
+            "calls have exactly the effects of the translated write table answers, after ANY history of earlier calls on the same "
+            "instance, what a first call answers when the table is empty; loglik_gradient_after_any_history / "
+            "conjGrad_never_worse_after_any_history; memo_on_identity_violates (a memo keyed by the identity of the k-space "
+            "argument breaks it). The theorems are about the same Lean definitions the driver executes over "
             "exact Gaussian rationals; those are tied to the code by (a) plans translated from the Python AST of forward / "
             "_A_star_op / _A_star_A_op / B_op / cg / _PRP / _DY / _BAN, proved equal to the model plans and proved to evaluate to "
-            "the model definitions for every operations record, (b) exact differential correspondence against the real blocks "
-            "with dense dyadic unitary / un-normalised / arbitrary operator matrices injected as forward/backward operators. "
-            "Phase 2: the same physics re-implemented in 36 sites of the unrolled models and engines (EndToEndVarNetBlock, "
-            "RecurrentVarNetBlock, VSharpNet/3D, JointICNet, IterDualNet, LPDNet, XPDNet, MRIVarSplitNet, KIKINet, CIRIM, "
+            "the model definitions for every operations record, the control skeleton of cg incl. the break test, the number of "
+            "exits (1) and loops (1); (b) translated structural tables with decided predicates: dc_state_writes_ok (no write to "
+            "self / class / module state, no memoising decorator in the 87 functions reachable from the entry points of 25 "
+            "data-consistency classes + the tensor helpers), dc_block_shape_ok (single exit, no in-place operation on an argument), "
+            "dc_control_ok (every branch / loop of the two anchored blocks is the modelled one: no branch on self.training, a shape, "
+            "a coil count, no loop over coils or chunks; the loops and mode- / shape-dependent branches of the other classes are the "
+            "recorded ones), conjgradnet_cg_calls_ok / conjgradnet_ctor_args_eq / site_conjgradnet_init_sem (the caller of ConjGrad "
+            "outside the anchored file); (c) exact differential correspondence against the real blocks "
+            "with dense dyadic unitary / un-normalised / arbitrary operator matrices injected as forward/backward operators, in "
+            "train and eval mode, 1-33 coils, and along call histories on ONE persistent instance (same tensor objects re-used with "
+            "other masks / scalings, refilled in place, equal copies). "
+            "Phase 2: the same physics re-implemented in 37 sites of the unrolled models and engines (EndToEndVarNetBlock, "
+            "RecurrentVarNetBlock, VSharpNet/3D, JointICNet, IterDualNet, LPDNet, XPDNet, MRIVarSplitNet, KIKINet, CIRIM, ConjGradNet, "
             "MRIModelEngine, SSL/JSSL/VSharp engines) is extracted from the AST into plans, each proved to evaluate to one of the "
             "model forms (softDC, aOp, aStar, dcGradTwice, dcGradAfter, loglik, hardDC, ...), and those forms are proved to be the "
             "gradient A^H(A x - M y) / the k-space gradient M(k - y) / the adjoint pair / the hard data consistency; CIRIM's "
             "k-space output and VSharpNetJSSLEngine's inference path are recorded as differing. ConjGrad on a batch: the loop is "
             "left at the first pass where the batch-mean statistic passes the test (cg_batch_mean_stop) and every sample is still "
             "never worse than its own start; un-normalised operator pair = adjoint pair (d F, d F^H) on data d y.",
-    "note": "Partial: floating-point rounding and 'to solver tolerance within num_iters' are numerical, checked by the oracle on "
-            "the real code with the real fft2/ifft2 (autograd gradient, dense torch.linalg.solve, objective monotone over "
-            "iteration counts) and not proved. Trusted: Lean kernel + Mathlib (axioms propext, Classical.choice, Quot.sound), "
-            "the AST translator, that torch fftn/ifftn(norm='ortho') are mutually adjoint (C01), expand/reduce adjoint (C02), "
+    "note": "Partial: floating-point rounding and reaching the tolerance with num_iters < dim (the shipped budgets 10-15) are numerical, "
+            "checked by the oracle on the real code with the real fft2/ifft2 (autograd gradient, dense torch.linalg.solve, objective "
+            "and energy-norm error monotone over iteration counts, a further pass moves the iterate until the tolerance test holds, "
+            "ill-conditioned systems cond(B) up to 1e6 under the shipped budgets, float64 through a harness-side FFT pair because "
+            "the repo's fft2 rejects float64) and not proved; the batch form of the executable stop test (stopQB, rational enclosure of the square roots) is "
+            "not tied to a real-valued statement (the single-sample stopQ is: stopQ_eq_stopTol). Trusted: Lean kernel "
+            "+ Mathlib (axioms propext, Classical.choice, Quot.sound), "
+            "the AST translator and the completeness of its write / in-place / control-flow scanners, that torch fftn/ifftn(norm='ortho') "
+            "are mutually adjoint (C01), expand/reduce adjoint (C02), "
             "masking is a 0/1 projection (C03) — here hypotheses of the theorems. DY/BAN are outside the property (their "
-            "coefficients are minus the FR one on the invariant; proved as a note).",
-    "technique": "Lean 4 + Mathlib proof (inner-product-space algebra, induction over iterations) + AST-to-plan translation "
-                 "bridge (decide + simp) + exact rational differential correspondence + autograd / dense-solve oracle",
+            "coefficients are minus the FR one on the invariant; proved as a note). Observations (notes in the evidence, not judged): "
+            "map magnitudes whose |<r,Bp>|^2 leaves the float32 range make complex_division return a zero step (C02 known finding); "
+            "a plain lower-case update-type string given directly to ConjGrad selects the BAN branch (the config rejects it).",
+    "technique": "Lean 4 + Mathlib proof (inner-product-space algebra, induction over iterations and call histories) + AST-to-plan "
+                 "translation bridge and translated structural tables (decide + simp) + exact rational differential correspondence "
+                 "incl. persistent-instance histories + autograd / dense-solve / call-history oracle",
 }
 EXTRA_LEAN_MODULES = ["DirectVerif.Lemmas.C19Ops", "DirectVerif.Lemmas.C19Loglik", "DirectVerif.Lemmas.C19CG",
                       "DirectVerif.Lemmas.C19Energy", "DirectVerif.Lemmas.C19Term", "DirectVerif.Lemmas.C19Batch",
                       "DirectVerif.Lemmas.C19Sites", "DirectVerif.Lemmas.C19Unnorm", "DirectVerif.Lemmas.C19Stop",
-                      "DirectVerif.Lemmas.C19State"]
+                      "DirectVerif.Lemmas.C19State", "DirectVerif.Lemmas.C19StopQ"]
 TRUSTED = [
     "Lean 4.33 kernel + Mathlib; axioms ⊆ {propext, Classical.choice, Quot.sound}",
-    "harness/translate/recipes/c19.py (Python AST -> Plan; pattern rules for expand/reduce/mask/forward/backward, inlining)",
+    "harness/translate/recipes/c19.py (Python AST -> Plan; pattern rules for expand/reduce/mask/forward/backward, inlining) and "
+    "recipes/c19_state.py (scanners for state writes, in-place operations, exits, control flow; reachability through self.<method> "
+    "and module-level calls — sub-modules and the injected operators are outside the scan)",
     "hypotheses of the theorems: backward = adjoint(forward) (normalised fft2/ifft2: C01), reduce = adjoint(expand) (C02), "
     "mask self-adjoint idempotent (C03), lambda real > 0",
     "the model's dense-matrix realisation of the operators (Problem.ops) — validated by the exact correspondence",
     "torch elementwise float64 arithmetic is exact on the dyadic probe set; CG iterates compared under 1e-7 relative",
+    "dc_history_independent reads the translated write table as the complete list of effects of a call (syntactic scan)",
+    "the harness-side float64 FFT pair (torch.fft, same centring / normalisation conventions) used where the repo's fft2 rejects float64",
 ]
 ASSUMPTIONS = [
-    "exact arithmetic in the theorems; float32/float64 rounding only checked by the oracle (1e-4 / 2e-3 relative)",
+    "exact arithmetic in the theorems; float32/float64 rounding only checked by the oracle (1e-4 / 2e-3 relative in float32, 1e-10 / 1e-7 in float64)",
     "the batch stopping statistic is decided through a rational enclosure of the square roots (width 1e-20); inputs inside the "
     "enclosure are reported as borderline and skipped (none met)",
     "sampling masks are boolean where the engines negate them with `~` (property C04)",
+    "judged inputs keep |<r, B p>|^2 inside the float32 range (log-normal map magnitudes sigma <= 1.5); beyond it see the float-range note",
+    "call histories re-use k-space tensors with another mask only on the two anchored blocks (they mask the data themselves); the "
+    "sites get their argument buffers refilled / re-masked in place so that `masked_kspace` stays consistent with its mask",
 ]
 RULE = ("correspondence: dense operator matrices (dyadic unitary incl. Hadamard/phase-permutation products, un-normalised "
-        "integer pair, arbitrary non-adjoint pair) on n = H*W in {1,2,3,4,6,8,16} pixels, 1-3 coils, Gaussian-integer data, "
-        "masks empty/full/random, scaling None or dyadic; exact string equality for loglik/_A_star_op/_A_star_A_op/B_op, "
+        "integer pair, arbitrary non-adjoint pair) on n = H*W in {1,2,3,4,6,8,16} pixels, 1-3 coils (30% of the cases: the coil "
+        "ladder 1..8, 9, 12, 16, 17, 20, 33 on 1-4 pixels), block in train or eval mode, Gaussian-integer data, "
+        "masks empty/full/random (shared or per coil), scaling None or dyadic; exact string equality for loglik/_A_star_op/_A_star_A_op/B_op, "
+        "also along call histories of 3-5 calls on one persistent MRILogLikelihood / ConjGrad instance re-using the same tensor objects; "
         "1e-7 relative for cg/forward after 0-3 passes with all four update types and tol in {0, positive}; batches of 2-3 samples "
         "through cgBatch; exact equality for the site forms reachable on the real modules (soft DC of the two VarNet blocks "
         "with a zero regulariser, _forward/_backward_operator of five classes, engine hard DC). non-trivial = "
-        "n >= 2 and a mask that is neither trivial for the op nor data all zero (loglik: any case with n >= 2); distinct = "
-        "distinct protocol line. oracle: one case = one random problem with the real fft2/ifft2; site oracle: one case = one "
-        "real module (tiny networks) run with recording operators, every data-consistency evaluation compared with autograd")
+        "n >= 2 and a mask that is neither trivial for the op nor data all zero (loglik: any case with n >= 2; history: any call after the first); distinct = "
+        "distinct protocol line. oracle: one case = one random problem with the real fft2/ifft2 (loglik, cg, cgbatch, cgbudget = "
+        "ill-conditioned system under a shipped iteration budget), one call history on a persistent block (float32 and float64), "
+        "or one real module (12 site checks incl. ConjGradNet; tiny networks, recording operators, every data-consistency evaluation "
+        "compared with autograd / dense solve) — plain, over the coil ladder in train and eval mode, and over a call history on "
+        "persistent module instances")
 
 DT = torch.float64
 # coil counts: everything up to 8, then around the multiples of 8 and beyond 32 (chunked / vectorised coil loops)
